@@ -257,6 +257,32 @@ def _exhausted_pred(ff, folder, test, pol, after_delete, delnode):
             return True, "tested after the sent bytes were removed"
         if (t in neg and pol) or (t in pos and not pol):
             return False, "polarity inverted: the flag is set while data remains"
+    # a comparison on len(self._buffer) itself, evaluated before or after the deletion
+    if any(isinstance(n, ast.Call) and src(n) == "len(self._buffer)" for n in ast.walk(test)):
+        import copy as _copy
+
+        class _L(ast.NodeTransformer):
+            def visit_Call(self, node):
+                if src(node) == "len(self._buffer)":
+                    return ast.copy_location(ast.Name(id="__remaining", ctx=ast.Load()), node)
+                return self.generic_visit(node)
+        t2 = _L().visit(_copy.deepcopy(test))
+        if not any(isinstance(n, (ast.Attribute, ast.Call)) for n in ast.walk(t2)):
+            before = not after_delete
+            wrong = []
+            for r in range(0, 31):
+                try:
+                    v = bool(folder.fold(t2, Scope(ff.scope.mod, ff.scope.cls, {"__remaining": r})))
+                except Unfoldable as e:
+                    return None, f"predicate does not evaluate: {e}"
+                v = v if pol else not v
+                left_after = max(0, r - 7) if before else r
+                if v != (left_after == 0):
+                    wrong.append(r)
+            if wrong:
+                return False, (f"with {wrong[0]} bytes {'remaining before' if before else 'left after'} this segment the last-segment flag is "
+                               f"{'not set' if (max(0, wrong[0] - 7) if before else wrong[0]) == 0 else 'set'} (predicate `{src(test)}`, wrong for remaining in {wrong[:6]})")
+            return True, f"predicate `{src(test)}` evaluated for 0..30 remaining bytes"
     # a comparison on a local that holds len(self._buffer) taken before the deletion
     names = [n.id for n in ast.walk(test) if isinstance(n, ast.Name)]
     for nm in names:
